@@ -19,9 +19,13 @@
   Their totality theorems are re-exported from the owning packages; the "negative or inconsistent length ⇒ error"
   clauses those packages did not state (palette size, data-array length, height-map length, chunk data length, typed
   nbt array / list / string lengths, the String frame of a JSON component) are proved from the models
-  (GoMC.Lemmas.NoPanicFold).  No work bound is stated for these decoders: the owning packages proved none (C03 lists
-  it as OPEN: fuel independence of the nbt models on ill-formed input).  `chat.Message` in NBT form has no Lean model
-  yet (C17 stage 2): no theorem here speaks about it.
+  (GoMC.Lemmas.NoPanicFold).
+  PHASE 2: `chat.Message` in NBT form and the chat-type header (C17 stage 2: Model/ChatNBT; `C08_total_chat_nbt`,
+  `C08_total_chat_type`, `C08_neg_chat_args` / `C08_large_chat_args`: a negative or oversize typed-array length inside
+  translation arguments is an error), and work bounds for the part-2 decoders where the owners' models give one:
+  `C08_work_palette`, `C08_work_section`, `C08_work_registry_typed`.  The typed nbt decoder itself has none (C03 lists it
+  as OPEN: fuel independence of the nbt models on ill-formed input); chunk: the loops of `Chunk.ReadFrom` are those of the
+  sections (bounded), the field combinators (part 1) and the nbt decoder (open).
 
   Models: VarInt/VarLong (Model/VarInt), every field type and combinator (Model/Fields, Model/Combinators,
   `codec t` over the term language `Spec.Ty`), `Packet.Scan`, BitStorage (Model/BitStorage), frame unpacking
@@ -43,6 +47,8 @@
     panic (C04's `C04_walker_total`; `C08_total_nbt_typed_snbt` is the instance); the typed theorems speak about a
     FRESH destination (`ty.zero`), `C08_total_nbtfield` about any well-shaped one; JSON: encoding/json's text → tree
     layer is the parameter `parse` (total, never panics: trusted).
+  * phase 2: `C08_work_registry_typed`, `C08_field_monotone_nbtfield`: `hsn` — `StringifiedMessage.UnmarshalNBT` never
+    gives bytes back (`Cons 0`); the chat package's carrier satisfies it trivially (non-vacuity example).
 -/
 import GoMC.Lemmas.NoPanic
 import GoMC.Lemmas.NoPanicFold
@@ -556,6 +562,85 @@ theorem C08_neg_registry_typed (cx : Go.SnbtCarrier) (ty : Go.GoType) (s s1 : St
     (h : varIntRead s = (Res.ok (l, n), s1)) (hneg : l.toInt < 0) :
     Registry.readFrom (Go.fieldRead cx true ty ty.zero) s = (Res.err, s1) := Reg.neg_readFrom _ h hneg
 
+
+/-! ## PHASE 2 — the NBT form of text components and the chat-type header (chat/nbtmessage.go, chat/decoration.go; C17 stage 2) -/
+
+open GoMC.Model.ChatNBT in
+/-- `(*Message).ReadFrom` (NBT form): into a fresh message, and into a message holding ANY component, with any
+recursion budget, on any source: a value or an error -/
+theorem C08_total_chat_nbt (fuel : Nat) (s : Stream) :
+    (readFrom s).1 ≠ Res.panic ∧ (readFromIntoF fuel messageTy.zero s).1 ≠ Res.panic
+    ∧ ∀ m : Msg, (readFromIntoF fuel (goOf m) s).1 ≠ Res.panic :=
+  let h := C17.C17_nbt_decode_never_panics fuel s
+  ⟨h.2.1, h.1, h.2.2⟩
+
+open GoMC.Model.Chat GoMC.Model.ChatNBT in
+/-- `(*chat.Type).ReadFrom` into a `Type` whose sender name is fresh (whatever id and target it held) … -/
+theorem C08_total_chat_type (old : ChatTypeOf Go.GoVal) (h : old.sender = messageTy.zero) (s : Stream) :
+    (typeRead old s).1 ≠ Res.panic :=
+  typeRead_noPanic old (fun s => by rw [h]; exact readFromInto_zero_noPanic s) readFromInto_zero_noPanic s
+
+open GoMC.Model.Chat GoMC.Model.ChatNBT in
+/-- … and into one whose sender name holds any component (the sender is decoded INTO the old name; the target always
+into `new(Message)`) -/
+theorem C08_total_chat_type_reused (old : ChatTypeOf Go.GoVal) (sender : Msg) (h : old.sender = goOf sender) (s : Stream) :
+    (typeRead old s).1 ≠ Res.panic :=
+  typeRead_noPanic old (fun s => by rw [h]; exact readFromInto_goOf_noPanic sender s) readFromInto_zero_noPanic s
+
+open GoMC.Model.ChatNBT in
+/-- numeric translation arguments arrive as a typed array (byte / int / long array): a NEGATIVE length is an error of
+`(*TranslateArgs).UnmarshalNBT`, whatever was decoded before … -/
+theorem C08_neg_chat_args (f : Nat) (old : Go.GoVal) (tag : Byte) (htag : tag = 7#8 ∨ tag = 11#8 ∨ tag = 12#8)
+    (s s' : Stream) (n : BitVec 32) (h : NBT.readInt32 s = (Res.ok n, s')) (hneg : n.msb = true) :
+    (argsUm (chatUm (f + 1)) old tag s).1 = Res.err :=
+  chat_args_err f old tag htag s fun e o => neg_umSlice (chatUm f) e o tag s s' n htag h hneg
+
+open GoMC.Model.ChatNBT in
+/-- … and so is a length whose elements (1, 4, 8 bytes each) are not all present -/
+theorem C08_large_chat_args (f : Nat) (old : Go.GoVal) (tag : Byte) (htag : tag = 7#8 ∨ tag = 11#8 ∨ tag = 12#8)
+    (s s' : Stream) (n : BitVec 32) (h : NBT.readInt32 s = (Res.ok n, s')) (hpos : n.msb = false)
+    (hbig : s'.flat.length < arrWidth tag * n.toNat) : (argsUm (chatUm (f + 1)) old tag s).1 = Res.err :=
+  chat_args_err f old tag htag s fun e o => large_umSlice (chatUm f) e o tag s s' n htag h hpos hbig
+
+/-- the same for the typed decoder in general: an oversize byte / int / long array decoded into ANY slice type -/
+theorem C08_large_nbt_typed_slice (rec : Go.Rec) (e : Go.GoType) (old : Go.GoVal) (tag : Byte) (s s' : Stream) (n : BitVec 32)
+    (htag : tag = 7#8 ∨ tag = 11#8 ∨ tag = 12#8) (h : NBT.readInt32 s = (Res.ok n, s')) (hpos : n.msb = false)
+    (hbig : s'.flat.length < arrWidth tag * n.toNat) : (Go.umSlice rec e old tag s).1 = Res.err :=
+  large_umSlice rec e old tag s s' n htag h hpos hbig
+
+/-! ## PHASE 2 — work bounds for the part-2 decoders: never spin without consuming input -/
+
+/-- `PaletteContainer.ReadFrom` into ANY container: (palette-loop iterations) + 8·(data-array-loop iterations) ≤ bytes
+consumed + 8 — whatever the outcome (a declared palette size / data length of 2^31−1 on a short input fails in the
+first iteration that meets the end) -/
+theorem C08_work_palette (c : Container) (s : Stream) :
+    (contIters c s).1 + 8 * (contIters c s).2 + (c.readFrom s).2.2.flat.length ≤ s.flat.length + 8 :=
+  contIters_bound c s
+
+open GoMC.Model.Chunk in
+/-- `Section.ReadFrom`: the two containers together -/
+theorem C08_work_section (gbS gbB : Int) (sec : WSec) (s : Stream) :
+    (secIters sec s).1 + 8 * (secIters sec s).2 + (Section.readFrom gbS gbB sec s).2.flat.length ≤ s.flat.length + 16 :=
+  secIters_bound gbS gbB sec s
+
+/-- the typed element decoder `NBTField{V: &data, AllowUnknownFields: a}.ReadFrom` never gives bytes back (given that
+`StringifiedMessage.UnmarshalNBT` does not) … -/
+theorem C08_field_monotone_nbtfield (cx : Go.SnbtCarrier) (hsn : ∀ tag, Cons 0 (cx.unmarshal tag)) (allow : Bool)
+    (ty : Go.GoType) (old : Go.GoVal) (s : Stream) : (Go.fieldRead cx allow ty old s).2.flat.length ≤ s.flat.length :=
+  (cons0_fieldRead cx hsn allow ty old).le s
+
+/-- … hence the registry loop over ANY typed element: `2 · iterations ≤ bytes consumed + 2` -/
+theorem C08_work_registry_typed (cx : Go.SnbtCarrier) (hsn : ∀ tag, Cons 0 (cx.unmarshal tag)) (ty : Go.GoType) (s : Stream) :
+    2 * Registry.readFromIters (Go.fieldRead cx true ty ty.zero) s +
+      (Registry.readFrom (Go.fieldRead cx true ty ty.zero) s).2.flat.length ≤ s.flat.length + 2 :=
+  Reg.readFromIters_bound _ (cons0_fieldRead cx hsn true ty ty.zero) s
+
+/- OPEN: C08_work_nbt_typed — a bound "iterations ≤ c · bytes consumed + c'" for the loops of the typed nbt decoder
+   itself (list elements, compound entries, struct fields).  C03 owns the statement (its OPEN item `C03_work_d`: fuel
+   independence of the nbt models on ill-formed input); the models run with fuel = input length + 3 and the T2 run
+   compares them with the real code on every generated malformed input, a list of 2^31−1 elements on a short input
+   included.  The same gap is inherited by `Chunk.ReadFrom` (height maps, block entities) and the NBT form of chat. -/
+
 /-! ## Non-vacuity -/
 
 /-- the element-decoder hypotheses of the registry theorems are met by the `dynbt.Value` instance … -/
@@ -590,6 +675,12 @@ example : ((Container.new ⟨.blocks, 15⟩ 4096 0).readFrom (Stream.ofBytes [4,
   decide +kernel
 /-- a root TAG_Int_Array of length −1 read through `pk.NBT(&v)` with `v []int32` -/
 example : (Go.arrayLen (Stream.ofBytes [0xff, 0xff, 0xff, 0xff])).1 = Res.err := by decide +kernel
+/-- phase 2: the carrier hypothesis of the typed-registry work bound is met by the chat package's carrier (no
+StringifiedMessage: `Rd.fail`) -/
+example : ∀ tag, Cons 0 (ChatNBT.cx0.unmarshal tag) := fun _ => GoMC.Lemmas.DynBT.cons_fail 0
+/-- a TAG_Int_Array of length −1 as the translation arguments: the hypotheses of `C08_neg_chat_args` are met -/
+example : NBT.readInt32 (Stream.ofBytes [0xff, 0xff, 0xff, 0xff]) = (Res.ok (BitVec.ofInt 32 (-1)), Stream.ofBytes []) ∧
+    (BitVec.ofInt 32 (-1)).msb = true := by decide +kernel
 example : consuming (.ary .varint (.opt0 .long)) = true ∧ consuming (.opt0 .long) = false ∧
     consuming (.pair .unit (.fixedbits 0)) = false := by decide
 
